@@ -417,7 +417,7 @@ func intermediateState(w *drv.World, prop, oracle, cls, op string, oldM *ref.VMa
 		return v == nil
 	}
 	switch op {
-	case drv.OpLVFO, drv.OpDVF, "p.lvfo":
+	case drv.OpLVFO, drv.OpDVF, "p.lvfo", "p.dvf":
 		for t := oldT.Latest - 1; t > newT.Latest; t-- {
 			if !oldM.Has(t) {
 				continue
